@@ -730,6 +730,10 @@ func (ds *DataStoreSet) maxIDOrSizeChanged(ctx context.Context, name TableName) 
 // It returns a boolean flag whether the remote site has been restarted and any error encountered.
 func (ds *DataStoreSet) UpdateFullTable(ctx context.Context, tableName TableName) (err error) {
 	peer := ds.peer
+	if table := Objects.Tables[tableName]; table == nil || table.virtual != nil || table.passthroughOnly {
+		// nothing of these tables is kept in the store set, ex.: a WaitCondition on the sites table
+		return nil
+	}
 	store := ds.Get(tableName)
 	if store == nil {
 		return fmt.Errorf("cannot update table %s, peer is down: %s", tableName.String(), peer.getError())
